@@ -770,6 +770,13 @@ class C19:
                 pre = [rng.choice([h2, "d", h2, rng.choice(HOSTILE)]) for _ in range(depth)]
                 if all(c == "d" for c in pre):
                     pre[0] = h2
+                if rng.random() < 0.12:
+                    # components that add no level ('.', '' from a doubled separator) in front of one climb more than
+                    # there are real directories: a containment test that COUNTS components is fooled by them
+                    k = rng.choice([1, 1, 2, 3])
+                    pre = [rng.choice([".", ".", "", "x//y"[:rng.choice([1, 4])]]) for _ in range(k)] + [".."] * (k + rng.choice([1, 1, 2]))
+                    if rng.random() < 0.3:
+                        pre.append("in")
                 comps = pre + comps
             elif rng.random() < 0.5:
                 comps = ["d"] + comps
